@@ -1,6 +1,7 @@
 import Mustache.Proofs.LayoutBasic
 import Mustache.Proofs.LayoutTemp
 import Mustache.Proofs.LayoutGen
+import Mustache.Proofs.LayoutStore
 /-! # C10 — component storage handed out is in-bounds, live and correctly aligned
 
 PARTIAL BY NATURE (DESIGN.md section 6): the theorems cover the address arithmetic and the index ranges of
@@ -15,6 +16,7 @@ chunk `c`; `offsetOf cap 0 cs i` = `component_getter_info_[i].offset`, `addr cap
 `getDataUnsafe(i, j)` returns. `WF` = every alignment is positive, `Strided` = `size % align = 0`. -/
 namespace Mustache.Props.C10
 open Mustache.Gen Mustache.Model.Layout Mustache.Proofs.Layout Mustache.Proofs.LayoutTemp Mustache.Proofs.LayoutGen
+  Mustache.Proofs.LayoutStore
 
 /-! ## the executable fold is what the theorems talk about; its arithmetic is the code's -/
 
@@ -79,6 +81,20 @@ theorem chunk_index_in_range (j cap nchunks : Nat) (h : j < cap * nchunks) : j /
 
 example : (37 : Nat) < 16 * 3 := by decide
 
+/-- ALL histories of `emplace` / `decrSize` / `clear` on a storage (non-empty mask, hence `chunk_size_ > 0`;
+capacity ≥ 1): every slot below the population is backed by an allocated chunk, so `chunks_[j / cap]` of a
+live slot is inside the chunk table -/
+theorem storage_slots_backed (cap chunkSize : Nat) (ops : List SOp) (hc : 0 < cap) (hz : 0 < chunkSize) (j : Nat)
+    (hj : j < ((⟨cap, chunkSize, 0, 0⟩ : Store).run ops).size) :
+    j / cap < ((⟨cap, chunkSize, 0, 0⟩ : Store).run ops).nchunks := by
+  have r := run_inv ⟨cap, chunkSize, 0, 0⟩ ops hc hz (by simp [SInv])
+  unfold SInv at r
+  rw [r.2.1] at r
+  exact chunk_index_in_range j cap _ (by simp only at r; omega)
+
+example : ((⟨2, 64, 0, 0⟩ : Store).run [.emplace 0, .emplace 1, .emplace 2, .decr, .emplace 2, .clear false, .emplace 0]) =
+    ⟨2, 64, 2, 1⟩ := by decide
+
 /-! ## alignment -/
 
 /-- EXACT condition for aligned addresses: if the chunk base is a multiple of `ca` and the component's
@@ -122,10 +138,15 @@ theorem fixed_rule_aligned (cap : Nat) (cs : List Comp) (base : Nat → Nat) (hp
   rw [(constructor_fold .largest cap cs).2.2.1] at hbase
   exact layout_aligned cap cs (maxAlign cs) base hs i j hi hbase ((chunkAlign_max_divisible cs hp).2 i hi)
 
+example : (layout .largest 16384 [⟨1, 1⟩, ⟨64, 64⟩]).chunkAlign = 64 ∧ (fun _ => 8192) (5 / 16384) % 64 = 0 ∧
+    addr 16384 [⟨1, 1⟩, ⟨64, 64⟩] (fun _ => 8192) 1 5 = 8192 + 16384 + 5 * 64 := by decide
+
 /-- the chunk size requested from `aligned_alloc` is a multiple of the requested alignment -/
 theorem chunk_size_multiple (cap : Nat) (cs : List Comp) (ca : Nat) (hca : 0 < ca) :
     ca ∣ chunkSizeOf cap cs ca ∧ 0 < chunkSizeOf cap cs ca :=
   ⟨roundChunk_dvd _ _, roundChunk_pos _ _ hca⟩
+
+example : chunkSizeOf 4 [⟨1, 1⟩, ⟨64, 64⟩] 64 = 320 ∧ chunkSizeOf 4 [⟨0, 8⟩, ⟨0, 64⟩] 64 = 64 := by decide
 
 /-- the pinned rule (`chunk_align_` = alignment of the first component) does NOT satisfy the hypothesis:
 `create<A1, A64>()` with a chunk base that honours the requested alignment 1 hands out the 64-aligned
@@ -168,6 +189,9 @@ theorem addr_in_chunk (cap : Nat) (cs : List Comp) (ca : Nat) (base : Nat → Na
   unfold addr
   constructor <;> omega
 
+example : addr 4 [⟨1, 1⟩, ⟨64, 64⟩] (fun c => 1024 * c) 1 6 = 1024 + 64 + 2 * 64 ∧
+    chunkSizeOf 4 [⟨1, 1⟩, ⟨64, 64⟩] 64 = 320 := by decide
+
 /-- distinct (component, slot) pairs occupy disjoint byte ranges (chunks themselves are disjoint allocations) -/
 theorem layout_disjoint (cap : Nat) (cs : List Comp) (ca : Nat) (base : Nat → Nat) (h : WF cs) (hca : 0 < ca)
     (hcap : 0 < cap)
@@ -196,17 +220,28 @@ theorem layout_disjoint (cap : Nat) (cs : List Comp) (ca : Nat) (base : Nat → 
     · left; omega
     · right; omega
 
+/-- the hypothesis on the chunk table is satisfiable: allocations 1024 bytes apart, chunk size 320 -/
+example : ∀ c c' : Nat, c ≠ c' →
+    (fun c => 1024 * c) c + chunkSizeOf 4 [⟨1, 1⟩, ⟨64, 64⟩] 64 ≤ (fun c => 1024 * c) c' ∨
+    (fun c => 1024 * c) c' + chunkSizeOf 4 [⟨1, 1⟩, ⟨64, 64⟩] 64 ≤ (fun c => 1024 * c) c := by
+  have e : chunkSizeOf 4 [⟨1, 1⟩, ⟨64, 64⟩] 64 = 320 := by decide
+  intro c c' h; rw [e]; simp only; omega
+
 /-- the same statement inside one chunk, relative to its base: no hypothesis on the allocator -/
 theorem layout_disjoint_in_chunk (cap : Nat) (cs : List Comp) (h : WF cs) (i i' k k' : Nat)
     (hi : i < cs.length) (hi' : i' < cs.length) (hk : k < cap) (hk' : k' < cap) (hne : i ≠ i' ∨ k ≠ k') :
     rel cap cs i k + sizeAt cs i ≤ rel cap cs i' k' ∨ rel cap cs i' k' + sizeAt cs i' ≤ rel cap cs i k :=
   rel_disjoint cap cs h i i' k k' hi hi' hk hk' hne
 
+example : rel 4 [⟨3, 1⟩, ⟨24, 8⟩] 0 3 = 9 ∧ rel 4 [⟨3, 1⟩, ⟨24, 8⟩] 1 0 = 16 := by decide
+
 /-- the address of a slot depends only on its chunk-table entry: a call that leaves `chunks_[j / cap]`
 unchanged (everything except `clear(free_chunks)` and the destructor) leaves the address unchanged -/
 theorem addr_stable (cap : Nat) (cs : List Comp) (base base' : Nat → Nat) (i j : Nat)
     (h : base (j / cap) = base' (j / cap)) : addr cap cs base i j = addr cap cs base' i j := by
   unfold addr; rw [h]
+
+example : addr 4 [⟨8, 8⟩] (fun c => 64 * c) 0 5 = addr 4 [⟨8, 8⟩] (fun c => if c = 0 then 7 else 64 * c) 0 5 := by decide
 
 /-! ## command buffer: `TemporalStorage::allocate(size, align)` -/
 
@@ -253,6 +288,9 @@ theorem talloc_consecutive (s : TState) (r1 r2 : TReq) (hinv : TInv s) (h1 : r1.
     have := p.1.1 e.symm
     omega
 
+example : (allocate TState.init 4112 24 8).2 = ⟨0, 0, 24⟩ ∧
+    (allocate (allocate TState.init 4112 24 8).1 0 64 64).2 = ⟨0, 48, 64⟩ := by decide
+
 /-- ALL histories of one locked section: any two allocations of the same chunk are disjoint, each one is
 aligned and inside its chunk in the final state -/
 theorem talloc_history (s : TState) (rs : List TReq) (hinv : TInv s) (hr : ∀ r ∈ rs, r.align = 0 ∨ 0 < r.align) :
@@ -271,5 +309,8 @@ example : (runAllocs TState.init [⟨4112, 24, 8⟩, ⟨0, 64, 64⟩, ⟨0, 4096
 /-- `clear()` (end of the locked section) re-establishes the allocator's invariant, so the next section is
 covered by `talloc_history` again -/
 theorem talloc_clear (s : TState) : TInv (clear s) := clear_inv s
+
+example : (clear (runAllocs TState.init [⟨4112, 24, 8⟩, ⟨0, 64, 64⟩]).1).chunks = [⟨4112, 4096, 4096⟩] ∧
+    (clear (runAllocs TState.init [⟨4112, 24, 8⟩, ⟨0, 64, 64⟩]).1).target = 112 := by decide
 
 end Mustache.Props.C10
